@@ -42,8 +42,10 @@ package helper
 //@ ensures[C16,C02] len(result) == min(count, len(c)-old(consumed(c))) && closed(result)
 //@ ensures[C16,C01] forall k :: 0 <= k && k < len(result) ==> result[k] == c[old(consumed(c))+k]
 //@ ensures[C16,C03] consumed(c) == old(consumed(c)) + len(result)
+//@ ensures[C01] forall j :: 0 <= j && j <= len(result) ==> psum(result, j) == psum(c, old(consumed(c)) + j) - psum(c, old(consumed(c)))
 //@ loop#0 invariant 0 <= i && i <= count && consumed(c) == old(consumed(c)) + i && sent(result) == i && !closed(result)
 //@ loop#0 invariant forall k :: 0 <= k && k < i ==> result[k] == c[old(consumed(c))+k]
+//@ loop#0 invariant forall j :: 0 <= j && j <= i ==> psum(result, j) == psum(c, old(consumed(c)) + j) - psum(c, old(consumed(c)))
 
 //@ func First
 //@ requires count >= 0 && consumed(c) == 0
@@ -339,3 +341,11 @@ package helper
 //@ loop#1 invariant sent(output) == len(input) + i * last
 //@ loop#2 invariant 0 <= j && j <= last && 0 <= i && i < count && rwf(memory) && len(memory.buffer) == last && consumed(input) == len(input) && !closed(output)
 //@ loop#2 invariant sent(output) == len(input) + i * last + j
+
+// ---- lemmas (proved by induction, never assumed) ----------------------------------------------------------
+// prefix sums of a stream that is another stream delayed by P zeros
+//@ lemma psum_shift(a stream, b stream, P int, j int)
+//@ requires[C01,C15] P >= 0 && 0 <= j && j <= len(b)
+//@ requires[C01,C15] forall k :: 0 <= k && k < len(b) ==> b[k] == (k < P ? 0 : a[k-P])
+//@ ensures[C01,C15] psum(b, j) == psum(a, max(0, j-P))
+//@ induction j
